@@ -64,3 +64,15 @@ Theorem C02_sort_pairs_spec :
     forall l, Permutation (sort_pairs Param LossV loss_leb l) l /\ Sorted (le_pair Param LossV loss_leb) (sort_pairs Param LossV loss_leb l).
 Proof. exact sort_pairs_spec. Qed.
 Print Assumptions C02_sort_pairs_spec.
+
+(* Batch labels are zero-based and consecutive: in every reachable state every index below the batch counter labels at
+   least one row (together with "sorted" and "below the counter" of the invariant: 0,..,0,1,..,1,2,...), provided every
+   scheduled sampler has batch_size >= 1. *)
+From BlackIt Require Import Proofs.CalibConsecP.
+Theorem C02_labels_consecutive :
+  forall Param Series LossV model lossf loss_leb rounds0 propose draws agent_actions plan cfg0 samplers scheduler s0 ops,
+    construct Param Series LossV cfg0 samplers scheduler = inl s0 ->
+    pos_sizes (sched_samplers _ (sch _ _ _ (live _ _ _ s0))) -> Forall op_pos ops ->
+    ConsecS Param Series LossV (run Param Series LossV model lossf loss_leb rounds0 propose draws agent_actions plan ops s0).
+Proof. exact reachable_labels_consecutive. Qed.
+Print Assumptions C02_labels_consecutive.
